@@ -16,26 +16,28 @@ Definition mop_h (op : mop) : nat := match op with MFresh _ h => h | MAdvance _ 
 Definition pop_h (op : pop) : nat := match op with PFresh _ h => h | PAdvance _ _ h _ => h end.
 
 (* ------------------------------------------------------------------ MCTS ------------------ *)
+(* [gA] is the model's getA(s).  The horizon, return and fuel theorems hold for any gA (variable
+   action space); the tree-consistency theorems are stated for a fixed action space [fun _ => A]. *)
 
 (* After any history of sampleAction calls (first one from scratch), with any traces: every node's
    N is the sum of its actions' N — the root included, there is no exception in MCTS.hpp. *)
 Theorem tree_counts_invariant_mcts : forall A term disc rl iters s0 h0 tr0 ops,
   0 < A -> trace_ok A tr0 -> Forall (fun p => trace_ok A (snd p)) ops ->
-  counts_ok (mcts_session A term disc rl iters node0 ((MFresh s0 h0, tr0) :: ops)).
+  counts_ok (mcts_session (fun _ => A) term disc rl iters node0 ((MFresh s0 h0, tr0) :: ops)).
 Proof. exact mcts_counts_lemma. Qed.
 Print Assumptions tree_counts_invariant_mcts.
 
 (* Every action estimate is the mean of the returns recorded for it (N of them) … *)
 Theorem value_is_mean_mcts : forall A term disc rl iters s0 h0 tr0 ops,
   0 < A -> trace_ok A tr0 -> Forall (fun p => trace_ok A (snd p)) ops ->
-  mean_ok (mcts_session A term disc rl iters node0 ((MFresh s0 h0, tr0) :: ops)).
+  mean_ok (mcts_session (fun _ => A) term disc rl iters node0 ((MFresh s0 h0, tr0) :: ops)).
 Proof. exact mcts_mean_lemma. Qed.
 Print Assumptions value_is_mean_mcts.
 
 (* … and what simulate records for the chosen action (and returns to its caller) is the discounted
    sum of the rewards sampled from there to the end of the simulation. *)
-Theorem return_is_discounted_sum_mcts : forall A term disc rl fuel h d sn s tr sn' ret tr' st,
-  mcts_simulate A term disc rl (S fuel) h d sn s tr = (sn', ret, tr', st) ->
+Theorem return_is_discounted_sum_mcts : forall gA term disc rl fuel h d sn s tr sn' ret tr' st,
+  mcts_simulate gA term disc rl (S fuel) h d sn s tr = (sn', ret, tr', st) ->
   st <= length tr -> ea (fst (next tr)) < length (acts sn) ->
   (ret == disc_sum disc (map er (firstn st tr)))%Q /\ tr' = skipn st tr /\
   rets (nth (ea (fst (next tr))) (acts sn') act0) = rets (nth (ea (fst (next tr))) (acts sn) act0) ++ [ret].
@@ -43,8 +45,8 @@ Proof. exact mcts_return_lemma. Qed.
 Print Assumptions return_is_discounted_sum_mcts.
 
 (* With the repaired rollout length no simulation makes more than `horizon` model calls. *)
-Theorem depth_le_horizon_mcts : forall A term disc iters g op tr g' a tr' sts,
-  mcts_op A term disc rl_fixed iters g op tr = (g', a, tr', sts) ->
+Theorem depth_le_horizon_mcts : forall gA term disc iters g op tr g' a tr' sts,
+  mcts_op gA term disc rl_fixed iters g op tr = (g', a, tr', sts) ->
   Forall (fun st => st <= mop_h op) sts.
 Proof. exact mcts_depth_lemma. Qed.
 Print Assumptions depth_le_horizon_mcts.
@@ -52,7 +54,7 @@ Print Assumptions depth_le_horizon_mcts.
 (* /repo today: horizon 2, one simulation, 4 model calls. *)
 Theorem depth_le_horizon_mcts_refuted : exists A term disc iters s h tr g' a tr' sts,
   0 < A /\ trace_ok A tr /\
-  mcts_op A term disc rl_orig iters node0 (MFresh s h) tr = (g', a, tr', sts) /\
+  mcts_op (fun _ => A) term disc rl_orig iters node0 (MFresh s h) tr = (g', a, tr', sts) /\
   ~ Forall (fun st => st <= h) sts.
 Proof. exact mcts_depth_refuted_lemma. Qed.
 Print Assumptions depth_le_horizon_mcts_refuted.
@@ -60,15 +62,15 @@ Print Assumptions depth_le_horizon_mcts_refuted.
 (* sampleAction returns an existing action and leaves the root with exactly A action nodes. *)
 Theorem action_valid_mcts : forall A term disc rl iters g op tr g' a tr' sts,
   0 < A -> trace_ok A tr -> counts_ok g /\ mean_ok g /\ shape_ok A g ->
-  mcts_op A term disc rl iters g op tr = (g', a, tr', sts) ->
+  mcts_op (fun _ => A) term disc rl iters g op tr = (g', a, tr', sts) ->
   a < A /\ length (acts g') = A.
 Proof. exact mcts_action_lemma. Qed.
 Print Assumptions action_valid_mcts.
 
 (* The recursion fuel of the model is never exhausted (the model is the code, not a truncation). *)
-Theorem fuel_irrelevant_mcts : forall A term disc rl f1 f2 h d sn s tr,
+Theorem fuel_irrelevant_mcts : forall gA term disc rl f1 f2 h d sn s tr,
   d < h -> h - d <= f1 -> h - d <= f2 ->
-  mcts_simulate A term disc rl f1 h d sn s tr = mcts_simulate A term disc rl f2 h d sn s tr.
+  mcts_simulate gA term disc rl f1 h d sn s tr = mcts_simulate gA term disc rl f2 h d sn s tr.
 Proof. exact mcts_fuel_irrelevant. Qed.
 Print Assumptions fuel_irrelevant_mcts.
 
@@ -77,10 +79,10 @@ Print Assumptions fuel_irrelevant_mcts.
 Theorem promotion_keeps_subtree_mcts : forall A term disc rl iters g a s1 h tr,
   (forall c, find_kid s1 (kids (nth a (acts g) act0)) = Some c ->
      In (s1, c) (kids (nth a (acts g) act0)) /\
-     mcts_advance A term disc rl iters g a s1 h tr = mcts_runSimulation A term disc rl iters h (allocate A c) s1 tr /\
-     fst (fst (fst (mcts_advance A term disc rl 0 g a s1 h tr))) = allocate A c) /\
+     mcts_advance (fun _ => A) term disc rl iters g a s1 h tr = mcts_runSimulation (fun _ => A) term disc rl iters h (allocate A c) s1 tr /\
+     fst (fst (fst (mcts_advance (fun _ => A) term disc rl 0 g a s1 h tr))) = allocate A c) /\
   (find_kid s1 (kids (nth a (acts g) act0)) = None ->
-     mcts_advance A term disc rl iters g a s1 h tr = mcts_fresh A term disc rl iters s1 h tr).
+     mcts_advance (fun _ => A) term disc rl iters g a s1 h tr = mcts_fresh (fun _ => A) term disc rl iters s1 h tr).
 Proof. exact mcts_promotion_lemma. Qed.
 Print Assumptions promotion_keeps_subtree_mcts.
 
@@ -93,7 +95,7 @@ Theorem value_in_range_mcts : forall A term disc R iters g hp op tr g' a tr' sts
   0 < A -> (0 <= R)%Q -> (0 <= disc)%Q -> trace_ok A tr -> rewards_in R tr ->
   counts_ok g /\ mean_ok g /\ shape_ok A g ->
   tree_all_d (rets_in R disc hp) 0 g -> hp <= mop_h op + 1 ->
-  mcts_op A term disc rl_fixed iters g op tr = (g', a, tr', sts) ->
+  mcts_op (fun _ => A) term disc rl_fixed iters g op tr = (g', a, tr', sts) ->
   tree_all_d (rets_in R disc (mop_h op)) 0 g' /\ tree_all_d (value_in R disc (mop_h op)) 0 g'.
 Proof. exact mcts_range_lemma. Qed.
 Print Assumptions value_in_range_mcts.
@@ -101,7 +103,7 @@ Print Assumptions value_in_range_mcts.
 (* /repo today: horizon 2, unit rewards, no discount: the root estimate is 4, the 2-step maximum 2 *)
 Theorem value_in_range_mcts_refuted : exists A term disc R iters s h tr g' a tr' sts,
   0 < A /\ (0 <= R)%Q /\ (0 <= disc)%Q /\ trace_ok A tr /\ rewards_in R tr /\
-  mcts_op A term disc rl_orig iters node0 (MFresh s h) tr = (g', a, tr', sts) /\
+  mcts_op (fun _ => A) term disc rl_orig iters node0 (MFresh s h) tr = (g', a, tr', sts) /\
   ~ tree_all_d (value_in R disc h) 0 g'.
 Proof. exact mcts_range_refuted_lemma. Qed.
 Print Assumptions value_in_range_mcts_refuted.
@@ -212,7 +214,7 @@ Example ex_mcts_history :
   let e a s1 r := Ev 0 a s1 0 r in
   let tr0 := [e 0 1 1%Q; e 1 0 2%Q; e 0 1 (-1)%Q; e 0 1 1%Q; e 1 0 (3#2)%Q; e 1 1 0%Q] in
   let tr1 := [e 1 0 1%Q; e 0 0 1%Q; e 1 0 1%Q] in
-  let g := mcts_session 2 (fun s => Nat.eqb s 3) (1#2) rl_fixed 3 node0
+  let g := mcts_session (fun _ => 2) (fun s => Nat.eqb s 3) (1#2) rl_fixed 3 node0
                         [(MFresh 0 2, tr0); (MAdvance 0 1 1, tr1)] in
   trace_ok 2 tr0 /\ trace_ok 2 tr1 /\ nN g = 4 /\ map aN (acts g) = [2; 2].
 Proof. cbv zeta. repeat split; try (repeat constructor; fail); vm_compute; reflexivity. Qed.
